@@ -11,17 +11,12 @@ NaN = float("nan")
 
 META = {
     "level": "exploration",
-    "rule": ("1-3 dimensions, at least one with 2 or 3 axes; in two thirds of the cases pairwise different extra extents "
-             "1-6 (a transposed axis then changes the shape or a block), in one third unconstrained extents 1-4 (so that "
-             "dimensions with equal extra-axis shapes occur); several multi-axis dimensions at once; ccube with the 4 shared "
-             "aggregates, xcube with those and stddev/quantile/min/max/corrcoef/covariance; NaN report format. "
-             "Non-trivial: >=2 extra-axis positions in total and pairwise different extra extents; distinct by content hash"),
+    "rule": ("1-3 dimensions, at least one with 2 or 3 axes; in two thirds of the cases pairwise different extra extents 1-6 (a transposed axis then changes the shape or a block), in one third unconstrained extents 1-4 (so that dimensions with equal extra-axis shapes occur); several multi-axis dimensions at once; ccube with the 4 shared aggregates, xcube with those and stddev/quantile/min/max/corrcoef/covariance; NaN report format; layouts (F-order, strided), in-place entry removal then recompute, self-engaged pools over a fixed ladder of sub-cube counts, one featherweight row, calculate([...]) with untraced objects, debug switch on. Non-trivial: >=2 extra-axis positions in total and pairwise different extra extents; distinct by content hash"),
     "require": {t: ["class:axes=3", "class:multi_dims>=2", "cube:ccube", "cube:xcube", "agg:covariance", "agg:count",
                     "agg:quantile", "blocks_compared", "sliced_variant_compared", "class:dims_with_equal_extra_shape",
                     "class:xcube_layout=F", "class:xcube_layout=strided", "class:entry_removed_in_place_then_recomputed",
                     "class:pool_engaged_by_the_cube_itself", "class:xcube_pool_engaged_by_the_cube_itself"] for t in ("quick", "thorough")},
-    "assumptions": ["blocks are compared with the 1-D cube of the same library (the property relates the two); "
-                    "values within 1e-9 of the data magnitude, missing cells exactly"],
+    "assumptions": ["blocks are compared with the 1-D cube of the same library (the property relates the two); values within 1e-9 of the data magnitude, missing cells exactly"],
 }
 
 
@@ -284,8 +279,7 @@ def judge(ctx, case):
             mb, mw = numpy.isnan(block.astype(float)), numpy.isnan(want.astype(float))
             if not (numpy.array_equal(mb, mw) and bool(numpy.all(numpy.abs(block.astype(float)[~mb] - want.astype(float)[~mb]) <= tol))):
                 ctx.violation("block-differs-after-in-place-edit:ccube:%s" % agg,
-                              "after difference_update emptied entry %r of dimension %d, the block at %r does not equal the cube over the "
-                              "1-D slices of the edited data" % (key, di, spos), case)
+                              "after difference_update emptied entry %r of dimension %d, the block at %r does not equal the cube over the 1-D slices of the edited data" % (key, di, spos), case)
                 return
     if ctx.evals % 97 == 1:
         ctx.sample({"dense_shapes": [list(d.shape) for d in dense], "commons": case["commons"], "agg": agg,
